@@ -19,7 +19,7 @@ LEVEL = "exploration"
 RULE = ("random spec trees (depth 1-4) over Any/Eq/Set/Base(final+abstract)/Param/AnyOf/AllOf/Var/Message/ArrayOf/"
         "IntAttr/Sized, range trees (RangeOf/SingleOf/RangeVar/RangeLength) and int trees, built through randomly "
         "chosen public construction routes, each evaluated on pool attributes, on attributes synthesised to be "
-        "accepted and on one-step mutations of those; sequences of 2-3 constraints sharing variables verified in one "
+        "accepted, on one-step mutations of those and on crossovers between accepted values of one class; sequences of 2-3 constraints sharing variables verified in one "
         "ConstraintContext; type-variable substitution (mapping_type_vars) of trees with TypeVar leaves; random type "
         "hints over 16 generic attribute classes.  A case is non-trivial when BOTH verdicts (accept and reject) were "
         "observed for it and it contains a union that relax_constraint actually merged, a variable occurring twice, "
@@ -39,7 +39,7 @@ LEVEL_NOTE = ("trusts xv/c09_ref.py (spec-tree evaluator with explicit backtrack
 TECHNIQUE = ("reference-model differential monitor (spec tree kept beside every real constraint; verdict, variable "
              "environment, metadata invariants and inference compared call by call)")
 ENGINES = ["harness", "models"]
-JOB_TIMEOUT = {"quick": 600, "thorough": 3600}
+JOB_TIMEOUT = {"quick": 900, "thorough": 7200}
 
 ATTR_VARS = ["T", "S", "U"]
 RANGE_VARS = ["R", "Q"]
@@ -203,7 +203,7 @@ class Gen:
     def leaf(self, dom):
         rng, u = self.rng, self.u
         r = rng.random()
-        if self.tvars and self.tvars["attr"] and r < 0.22:
+        if self.tvars and self.tvars["attr"] and r < 0.34:
             tv, bound = rng.choice(self.tvars["attr"])
             return ("tvar", tv, bound)
         if r < 0.08:
@@ -1525,7 +1525,7 @@ def plan(tier, seed):
     if tier == "quick":
         nt, ct, ntv, ctv, nh, ch = 24, 175, 6, 150, 6, 350
     else:
-        nt, ct, ntv, ctv, nh, ch = 64, 4000, 16, 2000, 16, 4000
+        nt, ct, ntv, ctv, nh, ch = 64, 2500, 16, 1200, 16, 2500
     for i in range(nt):
         jobs.append({"kind": "tree", "seed": seed * 100003 + i, "cases": ct, "tier": tier})
     for i in range(ntv):
@@ -1561,21 +1561,22 @@ def work(job):
 
 
 THRESHOLDS = {
-    # counter: (quick minimum, thorough minimum); measured values on the unchanged tree are >= 5x these
-    "verify_calls_compared": (60000, 600000),
-    "verdict_agree_accept": (8000, 80000),
-    "verdict_agree_reject": (20000, 200000),
-    "env_bound_new_variable": (1000, 10000),
-    "sequence_steps_with_shared_ctx": (200, 2000),
-    "trees_union_merged_by_relax": (150, 1500),
-    "anyof_verify_abstract_fallback": (300, 3000),
-    "anyof_verify_dispatch_by_class": (3000, 30000),
-    "inferences_checked": (500, 5000),
-    "type_var_mappings_applied": (100, 1000),
-    "hint_constraint_verdicts_compared": (8000, 80000),
-    "isa_verdicts_compared": (8000, 80000),
-    "get_bases_checked": (1000, 10000),
-    "variables_metadata_checked": (1500, 15000),
+    # counter: (quick minimum, thorough minimum); measured on the unchanged tree (quick, seeds 0-3): >= 4x the quick minimum
+    "verify_calls_compared": (40000, 400000),        # measured ~160k
+    "verdict_agree_accept": (8000, 80000),           # ~55k
+    "verdict_agree_reject": (20000, 200000),         # ~97k
+    "env_bound_new_variable": (1000, 10000),         # ~14k
+    "sequence_steps_with_shared_ctx": (200, 2000),   # ~4k
+    "trees_union_merged_by_relax": (150, 1500),      # ~800
+    "anyof_verify_abstract_fallback": (300, 3000),   # ~4k
+    "anyof_verify_dispatch_by_class": (3000, 30000),  # ~33k
+    "inferences_checked": (500, 5000),               # ~5.9k
+    "type_var_mappings_applied": (80, 800),          # ~450
+    "hint_constraint_verdicts_compared": (8000, 80000),  # ~40k
+    "isa_verdicts_compared": (8000, 80000),          # ~36k
+    "get_bases_checked": (1000, 10000),              # ~10k
+    "variables_metadata_checked": (1500, 15000),     # ~18k
+    "crossover_values": (2000, 20000),               # ~25k
     "library_constraints_checked": (10, 10),
 }
 
